@@ -45,18 +45,22 @@ func repro(t *testing.T) {
 		c := pin.Cid
 		sh.State.Add(ctx, pin)
 		if err := tr.Track(ctx, pin); err != nil {
-			t.Fatal(err)
+			R.Outcome(sec, "track-returned-error")
+			return
 		}
 		synctest.Wait()
 		st1 := tr.Status(ctx, c).Status
 		if st1 != api.TrackerStatusPinError || model.Get(c) != api.IPFSPinStatusUnpinned {
-			t.Fatalf("setup: want pin_error/unpinned, got %s/%v", st1, model.Get(c))
+			// the scenario's starting point was not reached (only on a modified tree)
+			R.Outcome(sec, fmt.Sprintf("scenario-1-start-not-reached:%s/%s", st1, daemonName(model.Get(c))))
+			return
 		}
 		first := model.Calls[0].Pin
 		fail = false
 		pos := len(model.Calls)
 		if _, err := tr.Recover(ctx, c); err != nil {
-			t.Fatal(err)
+			R.Outcome(sec, "recover-returned-error")
+			return
 		}
 		synctest.Wait()
 		var re *api.Pin
@@ -83,14 +87,12 @@ func repro(t *testing.T) {
 		R.States(sec, 1)
 		R.Transitions(3)
 		if re == nil {
-			R.Broken("repro 1: Recover re-issued no pin call")
-			return
-		}
-		if d := pinDiff(re, rec); len(d) > 0 {
+			R.Outcome(sec, "scenario-1-recover-issued-no-pin-call")
+		} else if d := pinDiff(re, rec); len(d) > 0 {
 			R.Violation("C05|clause2|reissued-pin-differs-from-recorded|recorded=local-direct|lost="+strings.Join(d, "+"), obs)
 		}
 		if model.Get(c) != api.IPFSPinStatusDirect {
-			R.Violation("C05|clause2|daemon-mismatch|last=local-direct|daemon-at-instruction=unpinned|recover-issued-on-path=false|daemon-before-recover-round=unpinned|daemon-after="+daemonName(model.Get(c)), obs)
+			R.Violation("C05|clause2|daemon-mismatch|last=local-direct|daemon-at-instruction=not-recursive|recovered-while-direct=false|daemon-before-recover-round=unpinned|daemon-after="+daemonName(model.Get(c)), obs)
 		}
 		R.Sample(map[string]interface{}{"tag": "repro", "case": obs})
 	})
@@ -110,15 +112,18 @@ func repro(t *testing.T) {
 		c := pin.Cid
 		sh.State.Add(ctx, pin)
 		if err := tr.Track(ctx, pin); err != nil {
-			t.Fatal(err)
+			R.Outcome(sec, "track-returned-error")
+			return
 		}
 		synctest.Wait()
 		if model.Get(c) != api.IPFSPinStatusDirect || tr.Status(ctx, c).Status != api.TrackerStatusPinned {
-			t.Fatalf("setup: want pinned/direct, got %s/%v", tr.Status(ctx, c).Status, model.Get(c))
+			R.Outcome(sec, fmt.Sprintf("scenario-2-start-not-reached:%s/%s", tr.Status(ctx, c).Status, daemonName(model.Get(c))))
+			return
 		}
 		pos := len(model.Calls)
 		if _, err := tr.RecoverAll(ctx); err != nil {
-			t.Fatal(err)
+			R.Outcome(sec, "recoverall-returned-error")
+			return
 		}
 		synctest.Wait()
 		var re *api.Pin
@@ -146,7 +151,7 @@ func repro(t *testing.T) {
 			}
 		}
 		if model.Get(c) != api.IPFSPinStatusDirect {
-			R.Violation("C05|clause2|daemon-mismatch|last=local-direct|daemon-at-instruction=unpinned|recover-issued-on-path=false|daemon-before-recover-round=direct|daemon-after="+daemonName(model.Get(c)), obs)
+			R.Violation("C05|clause2|daemon-mismatch|last=local-direct|daemon-at-instruction=not-recursive|recovered-while-direct=false|daemon-before-recover-round=direct|daemon-after="+daemonName(model.Get(c)), obs)
 		}
 		R.Sample(map[string]interface{}{"tag": "repro", "case": obs})
 	})
